@@ -366,8 +366,15 @@ def run_case(case):
                     sim.exit_max_distance = lim
                 else:
                     sim.exit_min_distance = lim
+            dt_before_call = sim.dt
             st, log, msgs = run(sim, tmax, exact=exact_s, stop_at=stop_at, cond=cond)
             info = '%s %s dir=%d' % (integ, which, direction)
+            # the user's step size is restored whatever the outcome of the call (in particular when the exit condition became true on the
+            # shortened last step of an exact-finish call)
+            if integ not in ('ias15', 'bs'):
+                counters['status_calls_dt_checked'] = counters.get('status_calls_dt_checked', 0) + 1
+                if sim.dt != math.copysign(abs(dt_before_call), direction):      # (integrate() gives dt the sign of the direction)
+                    add('integrate:dt-not-restored:after-exit-by-status', '%s (exact finish %r): status %d after %d boundaries, dt after = %r, user dt %r' % (info, exact_s, st, len(log), sim.dt, dt_before_call))
             if which in ('escape', 'encounter'):
                 first = next((i for i, e in enumerate(log) if e[4]), None)
                 if first is None:
